@@ -504,6 +504,7 @@ bool Json::Private::parse(const char* data, Variant& result)
   start = data;
   pos.line = 1;
   pos.pos = start;
+  result.clear(); // the value of the text replaces what the target held (toList()/toMap() below would keep it)
 
   if(!readToken())
     return false;
